@@ -130,8 +130,11 @@ class QueueSemantivaOrchestrator:
         profile_dict = profile.as_dict() if profile is not None else None
 
         # 4) Place the job on the internal FIFO queue
+        # Only a missing (None) context gets a default: a context collection
+        # without items is falsy but is the job's real input.
+        job_context = context if context is not None else ContextType()
         self.job_queue.put(
-            (job_id, pipeline_cfg, data, context or ContextType(), profile_dict)
+            (job_id, pipeline_cfg, data, job_context, profile_dict)
         )  # Enqueue a tuple with (job_id, pipeline_cfg, data, context, registry_profile)
         self.logger.info(f"Enqueued job {job_id}")
 
